@@ -20,6 +20,8 @@
 (*  "D30" a choice that is the whole content of a complexType (not inside   *)
 (*        a sequence or an extension) is not read: the struct has no        *)
 (*        element members                                                   *)
+(*  "D32" xs:all is not read: neither as the whole content of a type nor    *)
+(*        inside an extension; the struct has none of its members           *)
 (*  "D23c" a user type whose local name is that of an XSD builtin (date,    *)
 (*        string, ...) is taken for the builtin                             *)
 (* With D = {} the walk is the repaired code.                               *)
@@ -77,6 +79,7 @@ TopWalk(S, f, it, content, inext, D) ==
   ELSE LET top == content[1] IN
        IF top.k = "seq" THEN Walk(S, f, it, top.ps, Par(top.min, top.max), FALSE, D)
        ELSE IF top.k = "choice" /\ ("D30" \notin D \/ inext) THEN Walk(S, f, it, top.ps, Par(PMin(top), PMax(top)), TRUE, D)
+       ELSE IF top.k = "all" /\ "D32" \notin D THEN Walk(S, f, it, top.ps, Par(PMin(top), "1"), FALSE, D)
        ELSE <<>>
 
 Attrs(S, f, it, as, D) == [i \in 1..Len(as) |-> MkAttr(S, f, it, as[i], D)]
